@@ -149,7 +149,7 @@ METHODS = ['call', 'getblockcount', 'getbalance', 'getbestblockhash', 'getblockh
 INDEXERROR_CONVERSIONS = {('getblock', -5), ('getblockheader', -5), ('getblockheader_verbose', -5), ('getrawtransaction', -5), ('getrawtransaction_verbose', -5),
                           ('gettransaction', -5), ('getblockhash', -8)}
 REPLY_KINDS = (['result'] + ['err%d' % c for c in REGISTERED + UNREGISTERED] + ['err_nocode', 'err_string', 'err_number', 'err_with_result', 'missing_result', 'nonjson', 'empty', 'nohttp', 'html500',
-                                                                                  'huge_exponent', 'deep_nesting', 'not_utf8_like', 'json_scalar'])
+                                                                                  'huge_exponent', 'deep_nesting', 'not_utf8_like', 'json_scalar', 'utf8_cut'])
 
 
 def make_reply(kind, result_json):
@@ -181,6 +181,9 @@ def make_reply(kind, result_json):
         return Resp('{"result": "\\ud800", "error": null, "id": 1')
     if kind == 'json_scalar':
         return Resp('{"result": nul}')
+    if kind == 'utf8_cut':
+        # a body that ends in the middle of a multi-byte UTF-8 sequence (connection cut): not JSON, not even text
+        return Resp(b'{"result": "\xe2\x82')
     if kind == 'nohttp':
         return None
     raise KeyError(kind)
@@ -191,6 +194,8 @@ def expected_error_class(method, kind):
     from bitcoin.rpc import JSONRPCError
     if kind == 'result':
         return ('result',)
+    if kind == 'utf8_cut':
+        return ('anyerror',)        # the property does not say which exception an undecodable body raises - only that no value comes back
     code = None
     if kind.startswith('err') and kind[3:].lstrip('-').isdigit():
         code = int(kind[3:])
@@ -261,7 +266,9 @@ class Histories(BFSFamily):
             except IndexError as e:
                 got = ('indexerror', str(e))
             except Exception as e:  # noqa
-                raise Viol('%s with reply %s raised %s (history %r)' % (method, kind, type(e).__name__, list(history[:n + 1])), want, '%s: %s' % (type(e).__name__, str(e)[:80]))
+                if want[0] != 'anyerror':
+                    raise Viol('%s with reply %s raised %s (history %r)' % (method, kind, type(e).__name__, list(history[:n + 1])), want, '%s: %s' % (type(e).__name__, str(e)[:80]))
+                got = ('other', type(e).__name__)
             if len(c.requests) != nreq + 1:
                 raise Viol('%s issued %d requests' % (method, len(c.requests) - nreq), 1, len(c.requests) - nreq)
             rid = last_request(c)['id']
@@ -269,7 +276,10 @@ class Histories(BFSFamily):
                 raise Viol('request id %r after previous id %r (history %r): ids must strictly increase over the life of a proxy' % (rid, prev_id, [(METHODS[a], REPLY_KINDS[b]) if a >= 0 else ('close' if a == -1 else 'another proxy created and used') for a, b in history[:n + 1]]),
                            '> %d' % prev_id, rid)
             prev_id = rid
-            if want[0] == 'result':
+            if want[0] == 'anyerror':
+                if got[0] == 'result':
+                    raise Viol('%s: an undecodable reply yielded a return value' % method, 'an exception', repr(r)[:80])
+            elif want[0] == 'result':
                 if got[0] != 'result':
                     raise Viol('%s with a well-formed result raised %s' % (method, got), 'return value', got)
             elif want[0] == 'rpcerror':
